@@ -670,7 +670,7 @@ class NP2Converter:
         if wg.iw == wg.nwin - 1:
             ind2save[1] = int(self.samples_window / ratio)
 
-        chunk2save = (
+        chunk2save = np.rint(
             np.c_[
                 chunk[:, slice(*ind2save)].T
                 / self.sr.channel_conversion_sample2v[etype][: self.napch],
